@@ -35,7 +35,8 @@ def belongs(prop, v, run):
     if prop == "C09":
         if not ex.endswith("tsm"):
             return False
-        return cls == "ref" or (cls == "calllog" and site == "P2PInner.tsm") or cls in ("writeset", "symbolic-changed")
+        # exactly-once is the sum component; the position-code-sensitive component belongs to C02's clauses
+        return (cls == "ref" and site == "result.sum") or (cls == "calllog" and site == "P2PInner.tsm") or cls in ("writeset", "symbolic-changed")
     if prop == "C12":
         return cls in ("staged-vs-full", "writeset", "calllog", "symbolic-changed")
     if prop == "C13":
@@ -272,6 +273,11 @@ def minimise(prop, flavour, scenario, want, max_runs=300):
             return True
         return False
     start_sizes = (len(sc.get("particles", [])), len(sc.get("targets", [])), len(sc.get("decisions", []) or []), len(sc.get("history", [])))
+    # a sequential executor, if the violation does not need the schedule at all
+    if sc.get("executor") in ("omp", "omptsm") and want.get("where", "run") != "run":
+        attempt(lambda c: c.__setitem__("executor", "seqtsm" if c["executor"].endswith("tsm") else "seq"))
+    elif sc.get("executor") in ("omp", "omptsm"):
+        attempt(lambda c: c.__setitem__("executor", "seqtsm" if c["executor"].endswith("tsm") else "seq"))
     # history operations
     i = 0
     while i < len(sc.get("history", [])) and len(sc["history"]) > 1:
@@ -413,8 +419,12 @@ def main():
     # ---- evidence ----
     write_evidence(prop, tier, base, flavours, results, crashes, found, new, seen_known, fw_errors, gate_failures, build_s, run_s, time.time() - t_start)
 
+    by_finding = collections.OrderedDict()
     for kf, k, cnt in seen_known:
-        print("KNOWN-FINDING: property=%s %s [%s, %d runs]" % (prop, kf.get("description", kf.get("key")), k, cnt))
+        e = by_finding.setdefault(kf.get("key"), [kf, 0, []])
+        e[1] += cnt; e[2].append(k)
+    for key, (kf, cnt, keys) in by_finding.items():
+        print("KNOWN-FINDING: property=%s %s [%s; %d runs]" % (prop, kf.get("description", key), key, cnt))
     if fw_errors or gate_failures:
         for e in (fw_errors + gate_failures)[:10]:
             print("FRAMEWORK-ERROR: " + e)
